@@ -280,15 +280,23 @@ Definition wf_file (f : file_src) : bool :=
 (* sub-grammars used by the theorems *)
 Definition plain_node (n : node) : bool := match n with NChar _ | NBreak => true | _ => false end.
 Definition plain_file (f : file_src) : bool := forallb (fun c => forallb plain_node (c_payload c)) (f_cues f).
-(* b/i/u tags in angle syntax (short, long, upper case), nested and adjacent at will, around plain text *)
+(* b/i/u tags in angle syntax (short, long, upper case) and <font color=..> tags (hex or named colour, any
+   quoting), nested and adjacent at will, around plain text *)
 Fixpoint angle_node (n : node) : bool :=
   match n with
   | NChar _ | NBreak => true
   | NTag _ sy body =>
       negb (is_brace sy) && (fix go (l : list node) : bool := match l with [] => true | x :: l' => angle_node x && go l' end) body
+  | NFont _ _ body =>
+      (fix go (l : list node) : bool := match l with [] => true | x :: l' => angle_node x && go l' end) body
   | _ => false
   end.
 Definition angle_file (f : file_src) : bool := forallb (fun c => forallb angle_node (c_payload c)) (f_cues f).
+
+(* two cues say the same thing: same clock fields (the width of the hour field is free) and same payload *)
+Definition same_clock (a b : clock) : Prop := k_h a = k_h b /\ k_m a = k_m b /\ k_s a = k_s b /\ k_ms a = k_ms b.
+Definition same_content (c c' : cue_src) : Prop :=
+  same_clock (c_begin c) (c_begin c') /\ same_clock (c_end c) (c_end c') /\ c_payload c = c_payload c'.
 
 (* ------------------------------------------------------------------ triggers of the recorded findings *)
 Fixpoint node_has (p : node -> bool) (n : node) : bool :=
